@@ -11,6 +11,7 @@ import (
 	imonitor "github.com/nulab/autog/internal/monitor"
 	"github.com/nulab/autog/internal/phase1"
 	"github.com/nulab/autog/internal/phase2"
+	"github.com/nulab/autog/internal/phase3"
 	"github.com/nulab/autog/internal/phase4"
 	"github.com/nulab/autog/internal/phase5"
 )
@@ -92,6 +93,7 @@ func (in *vhIn) build() {
 // vhOptions draws the symbolic inputs of this cube and builds the option list from the cube constants:
 //
 //	P1: 0 greedy, 1 depth-first, 2 greedy with random picks     P2: 0 network simplex, 1 longest path
+//	P3: 1 weighted-median ordering (default), 0 no ordering
 //	P4: phase4.Alg value (1 VAlign 2 B&K 3 NS 4 SinkColoring 5 PackRight)   BK: forced B&K layout (-1 none)
 //	P5: phase5.Alg value (0 none 1 straight 2 polyline 3 ortho 4 splines)
 //	SZ: 0 no sizes, 1 fixed size, 2 per-node size for every node, 3 fixed + per-node for even nodes,
@@ -169,6 +171,9 @@ func (in *vhIn) buildOpts() {
 		in.opts = append(in.opts, WithLayering(phase2.LongestPath))
 	} else {
 		in.opts = append(in.opts, WithLayering(phase2.NetworkSimplex))
+	}
+	if vhConst("P3") == 0 {
+		in.opts = append(in.opts, WithOrdering(phase3.NoOrdering))
 	}
 	in.opts = append(in.opts, WithPositioning(phase4.Alg(in.p4)), WithEdgeRouting(phase5.Alg(in.p5)))
 	if in.bk >= 0 {
